@@ -12,9 +12,10 @@ LEVEL = 'model_checking'
 RULE = ('E1 enumeration: (a) a dedicated deck family aimed at the interleavings of pruning, de-duplication, '
         'caching and inlining - patently empty cells (s -s) at level 0, as filler inside a universe that is / '
         'is not inlined, shared by two containers, complement of a lattice cell, duplicated surface cards, '
-        'flagged surfaces that are unused or de-duplicated away - x 2^2 inlining flags x --max-inline-score in '
+        'flagged surfaces that are unused or de-duplicated away, a material in atom / mass fractions used at '
+        'a mass / atom density - x 2^2 inlining flags x --max-inline-score in '
         '{default, 0, 1e9} x --skip-deduplication x --skip-compositions / --skip-geomcomp / '
-        '--skip-boundary-conditions; (b) the states of the generators of C01, C05, C06, C07, C09, C13, C15, C16 '
+        '--skip-boundary-conditions; (b) the states of the generators of C01, C05, C10, C06, C07, C09, C13, C15, C16 '
         '(reduced bounds), passed through the structural report only; oracle: independent reader - every id '
         'defined once, every reference resolved, every count equal to the items that follow, no surface on '
         'both sides of a volume, every numeric field finite, GEOMCOMP partitions the non-virtual volumes, '
@@ -32,12 +33,15 @@ def b_interleave(ch):
     dup = ch.choose('duplicate-surfaces', [False, True])
     flag = ch.choose('flag', ['none', 'unused', 'dedup-lower', 'dedup-higher', 'used'])
     nested = ch.choose('nested-empty', [False, True])
+    # material 2 given in atom or mass fractions, used at a mass or at an atom density
+    m2form = ch.choose('m2-form', ['atom/mass-rho', 'mass/mass-rho', 'mass/atom-rho', 'atom/atom-rho'])
+    rho2 = '-7.8' if m2form.endswith('mass-rho') else '0.06'
     fl = {'none': '', 'unused': '*', 'dedup-lower': '*', 'dedup-higher': '+', 'used': '*'}[flag]
     cells = ['10 0 1 -2 3 -4 fill=1 imp:n=1']
     if shared:
         cells.append('11 0 6 -7 3 -4 fill=1 %s imp:n=1' % tr11)
     else:
-        cells.append('11 2 -7.8 6 -7 3 -4 imp:n=1')
+        cells.append('11 2 %s 6 -7 3 -4 imp:n=1' % rho2)
     if empty0 != 'none':
         cells.append('12 1 -2.7 %s imp:n=1' % empty0)
     rest = '(-1:2:-3:4) (-6:7:-3:4) -9'
@@ -51,11 +55,11 @@ def b_interleave(ch):
     else:
         cells.append('31 1 -2.7 -21 u=1 imp:n=1')
         if efill != 'none':
-            cells.append('32 2 -7.8 %s u=1 imp:n=1' % efill)
+            cells.append('32 2 %s %s u=1 imp:n=1' % (rho2, efill))
         if nested:
             cells.append('33 0 21 fill=2 u=1 imp:n=1')
             cells.append('41 1 -2.7 -22 u=2 imp:n=1')
-            cells.append('42 2 -7.8 22 -22 u=2 imp:n=1')
+            cells.append('42 2 %s 22 -22 u=2 imp:n=1' % rho2)
             cells.append('43 0 22 u=2 imp:n=1')
         else:
             cells.append('33 0 21 u=1 imp:n=1')
@@ -81,7 +85,7 @@ def b_interleave(ch):
     elif flag == 'used':
         surfs[7] = '%s9 so 40' % fl
     st.cells, st.surfs = cells, surfs
-    st.data = ['m1 13027 1', 'm2 26056 1']
+    st.data = ['m1 13027 1', 'm2 26056 -0.9 26054 -0.1' if m2form.startswith('mass') else 'm2 26056 0.9 26054 0.1']
     opts = []
     if ch.choose('inline-filling', [False, True], free=True):
         opts.append('--always-inline-filling')
@@ -103,7 +107,7 @@ def b_interleave(ch):
     return st
 
 
-OTHERS = [('c01', 'p2-mixed-k2', 0), ('c01', 'chain', 2), ('c05', 'trees', 2), ('c06', 'shapes', 2),
+OTHERS = [('c10', 'two-materials', None), ('c10', 'forms', 3), ('c01', 'p2-mixed-k2', 0), ('c01', 'chain', 2), ('c05', 'trees', 2), ('c06', 'shapes', 2),
           ('c06', 'arrays-2d', 0), ('c07', 'hex', 2), ('c09', 'level0', 2), ('c09', 'like', None),
           ('c13', 'stress', None), ('c15', 'like1', 3), ('c15', 'like2', 2), ('c16', 'flags', 1)]
 
